@@ -215,6 +215,7 @@ func playSend(v *vector) *sendObs {
 		}
 	}
 	if msg != nil {
+		o.MsgType = string(msg.Type)
 		if len(msg.Data) > 0 {
 			o.DataNorm = compactOr(msg.Data)
 		}
